@@ -159,7 +159,7 @@ fn boundary_texts() -> Vec<(String, &'static str)> {
 /// one kind, followed by a label definition and references to it.
 pub fn long_texts(thorough: bool) -> Vec<String> {
     let kinds = ["", " ; c", "\tNOP", ".ORG 0", "*STACKSIZE 32", ".DB 7", " .EQU k 5", "X:"];
-    let mut sizes: Vec<usize> = vec![1, 2, 126, 127, 128, 129, 253, 254, 255, 256, 257, 258, 511, 512, 513, 1023, 1024, 1025, 4095, 4096, 4097];
+    let mut sizes: Vec<usize> = vec![1, 2, 126, 127, 128, 129, 253, 254, 255, 256, 257, 258, 511, 512, 513, 1023, 1024, 1025, 1536, 1800, 2047, 2048, 2049, 3000, 4095, 4096, 4097];
     let big: Vec<usize> = if thorough { vec![32767, 32768, 32769, 65533, 65534, 65535, 65536, 65537, 65538, 131073] } else { vec![65534, 65535, 65536, 65537] };
     let mut v = vec![];
     for (ki, k) in kinds.iter().enumerate() {
@@ -204,7 +204,7 @@ pub fn exact_fit_texts() -> Vec<String> {
                 format!(".ORG {}\n LD R2, 7", n - 3),
             ];
             for fill in &fills {
-                for tail in ["", "L:", "L:\nM:", "*STACKSIZE 32", "*PROGRAMSIZE 7", ".BYTE 0", "  ; c", ".DB 1", "SAME-ORG", "L:\n*STACKSIZE 64\n*PROGRAMSIZE 9"] {
+                for tail in ["", "L:", "L:\nM:", "*STACKSIZE 32", "*PROGRAMSIZE 7", ".BYTE 0", "  ; c", ".DB 1", "SAME-ORG", "L:\n*STACKSIZE 64\n*PROGRAMSIZE 9", "*STACKSIZE 0", "*stacksize 48\n*STACKSIZE NOSET", "*PROGRAMSIZE AUTO", "*PROGRAMSIZE NOSET\n*STACKSIZE 16", "*PROGRAMSIZE 255\n*STACKSIZE 0"] {
                     let tail = if tail == "SAME-ORG" {
                         if n > 255 {
                             continue;
@@ -215,6 +215,12 @@ pub fn exact_fit_texts() -> Vec<String> {
                     };
                     // every referenced name gets a definition: in the tail if it is there, else up front
                     let mut t = String::from("#! mrasm\n");
+                    // settings in front of the image as well, for one fill in three
+                    match (n + fill.len() + tail.len()) % 3 {
+                        0 => t.push_str("*STACKSIZE 0\n"),
+                        1 => t.push_str("*STACKSIZE 64\n*PROGRAMSIZE 0\n"),
+                        _ => {}
+                    }
                     let defines_l = tail.starts_with("L:");
                     t.push_str(".EQU K 5\n");
                     if !defines_l && prefix.contains(" L\n") {
